@@ -452,42 +452,90 @@ func showCfgs(cs []cfg) string {
 
 // ---- large alignments ---------------------------------------------------------------------------
 
-// expand: the alignment whose rows are rep rotated copies of the base rows. A case stores the
-// (small) base and the factor, so that texts crossing the 4 KiB / 32 KiB / 64 KiB buffers of the
-// file layer cost neither thousands of draws nor megabytes of replay file; the rotation by 7
-// keeps the content from being periodic with the base length
-func expand(a gen.Ali, rep int) gen.Ali {
-	if rep <= 1 {
+// shape: how the (small) base alignment of a case is blown up. A case stores the base and the
+// shape, so that texts crossing the 4 KiB / 32 KiB / 64 KiB buffers of the lexers and of the file
+// layer cost neither thousands of draws nor megabytes of replay file.
+//   Repeat: every row becomes Repeat rotated copies of itself (few long rows);
+//   Many:   the alignment gets Many rows (50-400) made from the base rows in turn, rotated, with
+//           names of about NameLen characters derived from the base names (many short rows: names,
+//           header lines and block separators fall on every offset modulo the buffer sizes)
+type shape struct {
+	Repeat  int `json:"repeat,omitempty"`
+	Many    int `json:"many,omitempty"`
+	NameLen int `json:"namelen,omitempty"`
+}
+
+const maxRepeat = 120000
+
+func (sh shape) valid() bool {
+	return sh.Repeat >= 0 && sh.Repeat <= maxRepeat && sh.Many >= 0 && sh.Many <= 1000 && sh.NameLen >= 0 && sh.NameLen <= 64 &&
+		(sh.Many == 0 || sh.Repeat <= 50)
+}
+
+func shapeAt(shapes []shape, i int) shape {
+	if i < len(shapes) {
+		return shapes[i]
+	}
+	return shape{}
+}
+
+func rotate(s string, k int) string {
+	if len(s) == 0 {
+		return s
+	}
+	k %= len(s)
+	return s[k:] + s[:k]
+}
+
+// expand builds the alignment a case stands for; the rotations keep the content from being
+// periodic with the base length
+func expand(a gen.Ali, sh shape, d dom) gen.Ali {
+	if sh.Many > 0 && len(a.Rows) > 0 {
+		out := gen.Ali{Alphabet: a.Alphabet}
+		nb := len(a.Rows)
+		for i := 0; i < sh.Many; i++ {
+			b := a.Rows[i%nb]
+			idx := strconv.Itoa(i)
+			// name lengths vary around NameLen, and stay within ten bytes for strict Phylip
+			nl := sh.NameLen + (i*5)%7 - 3
+			if d.Strict && nl > 10 {
+				nl = 10 - (i*5)%3
+			}
+			if nl < len(idx)+1 {
+				nl = len(idx) + 1
+			}
+			head := cutBytes(b.Name, nl-len(idx)-1)
+			name := head + strings.Repeat("x", nl-len(idx)-1-len(head)) + "_" + idx
+			out.Rows = append(out.Rows, gen.Row{Name: name, Seq: rotate(b.Seq, (i/nb)*3)})
+		}
+		a = out
+	}
+	if sh.Repeat <= 1 {
 		return a
 	}
 	out := gen.Ali{Alphabet: a.Alphabet}
 	for _, r := range a.Rows {
 		var sb strings.Builder
-		l := len(r.Seq)
-		for k := 0; k < rep && l > 0; k++ {
-			s := (k * 7) % l
-			sb.WriteString(r.Seq[s:])
-			sb.WriteString(r.Seq[:s])
+		for k := 0; k < sh.Repeat && len(r.Seq) > 0; k++ {
+			sb.WriteString(rotate(r.Seq, k*7))
 		}
 		out.Rows = append(out.Rows, gen.Row{Name: r.Name, Seq: sb.String()})
 	}
 	return out
 }
 
-func repAt(reps []int, i int) int {
-	if i < len(reps) && reps[i] > 1 {
-		return reps[i]
-	}
-	return 1
-}
-
-const maxRepeat = 120000
-
 // size classes by the amount of text the alignment gives (residues, rows x columns)
 var sizeClasses = []string{"tiny", "normal", ">4KiB", ">8KiB", ">32KiB", ">64KiB"}
 
-func sizeClassOf(a gen.Ali, rep int) string {
-	n := len(a.Rows) * a.Length() * rep
+func sizeClassOf(a gen.Ali, sh shape) string {
+	rows, rep := len(a.Rows), sh.Repeat
+	if sh.Many > 0 {
+		rows = sh.Many
+	}
+	if rep < 1 {
+		rep = 1
+	}
+	n := rows * a.Length() * rep
 	switch {
 	case n > 65536:
 		return ">64KiB"
@@ -503,14 +551,36 @@ func sizeClassOf(a gen.Ali, rep int) string {
 	return "normal"
 }
 
-// genSized draws a base alignment and a repetition factor for a size class; weights: index into
-// a list in which the classes appear as often as they should be drawn
-func genSized(t *rapid.T, d dom, class string, cs ...cfg) (gen.Ali, int) {
+func shapeClass(sh shape) string {
+	switch {
+	case sh.Many > 0:
+		return "many rows"
+	case sh.Repeat > 1:
+		return "few long rows"
+	}
+	return "as drawn"
+}
+
+// genMany: 50-400 rows of short to moderate length, names of 10-40 characters (at most 10 for
+// strict Phylip): 8-64 KiB of text in most cases
+func genMany(t *rapid.T, d dom, cs ...cfg) (gen.Ali, shape) {
+	a := genAli(t, d, 200, cs...)
+	sh := shape{Many: rapid.IntRange(50, 400).Draw(t, "many"), NameLen: rapid.IntRange(10, 40).Draw(t, "namelen")}
+	if a.Length() < 8 && rapid.Bool().Draw(t, "longer") {
+		sh.Repeat = rapid.IntRange(2, 12).Draw(t, "repeat")
+	}
+	return a, sh
+}
+
+// genSized draws a base alignment and a shape for a size class
+func genSized(t *rapid.T, d dom, class string, cs ...cfg) (gen.Ali, shape) {
 	switch class {
 	case "tiny":
-		return genAliL(t, d, rapid.IntRange(1, 30).Draw(t, "L")), 1
+		return genAliL(t, d, rapid.IntRange(1, 30).Draw(t, "L")), shape{}
 	case "normal":
-		return genAli(t, d, 245, cs...), 1
+		return genAli(t, d, 245, cs...), shape{}
+	case "many":
+		return genMany(t, d, cs...)
 	}
 	target := map[string]int{">4KiB": 4096, ">8KiB": 8192, ">32KiB": 32768, ">64KiB": 65536}[class]
 	a := genAli(t, d, 245, cs...)
@@ -520,9 +590,8 @@ func genSized(t *rapid.T, d dom, class string, cs ...cfg) (gen.Ali, int) {
 	if rapid.Bool().Draw(t, "justabove") {
 		extra = rapid.IntRange(1, 64).Draw(t, "extra")
 	}
-	rep := (target+extra)/cells + 1
-	return a, rep
+	return a, shape{Repeat: (target+extra)/cells + 1}
 }
 
-var streamSizes = []string{"tiny", "tiny", "tiny", "normal", "normal", ">4KiB", ">4KiB", ">4KiB", ">8KiB", ">8KiB", ">32KiB", ">64KiB"}
-var singleSizes = []string{"tiny", "normal", "normal", "normal", "normal", "normal", ">4KiB", ">8KiB", ">32KiB", ">64KiB"}
+var streamSizes = []string{"tiny", "tiny", "tiny", "normal", "normal", ">4KiB", ">4KiB", ">4KiB", ">8KiB", ">8KiB", ">32KiB", ">64KiB", "many", "many"}
+var singleSizes = []string{"tiny", "normal", "normal", "normal", "normal", "normal", ">4KiB", ">8KiB", ">32KiB", ">64KiB", "many", "many", "many"}
